@@ -236,8 +236,8 @@ Lemma format_state_sim E b r : R b r ->
   R (fst (format_state E b)) (rbar_drawn r) /\ snd (format_state E b) = ref_lines E r.
 Proof.
   intros [Htw [Hm [Hp [[Hstw [Hsk [Hsg Hsp]]] [Hsv [Hti [Hst [Hof Hdr]]]]]]]].
-  unfold format_state, ref_lines, ref_ctx. rewrite Hstw, Hsk, Hsg, Hti, Hst, Hdr.
-  set (c := mkrctx E (r_draws r) (r_tw r) (r_keys r) (r_gl r) (r_tick r) (is_finished (r_status r))).
+  unfold format_state, ref_lines, ref_lines_gen, ref_ctx_gen. rewrite Hstw, Hsk, Hsg, Hti, Hst, Hdr.
+  set (c := mkrctx E (r_draws r) (r_tw r) (r_keys r) (r_gl r) (r_tick r) (is_finished (r_status r)) false).
   pose proof (fmt_parts_sim c (r_tw r) (r_msg r) (r_prefix r) eq_refl _ _ Hsp
                             (mkfmt (b_msg b) (b_prefix b) [] [] WNone) Hm Hp) as H.
   cbn [f_msg f_prefix f_cur f_lines f_wide] in H.
@@ -562,17 +562,17 @@ Qed.
 
 (* what the builder contract (glyphs_accept) leaves of the progress characters *)
 Definition pchars_ok (g : glyphs) : Prop := Forall notab (g_pchars g).
-Definition ctx_ok (c : rctx) : Prop := pchars_ok (c_gl c) /\ env_ok (c_env c).
+Definition ctx_ok (c : rctx) : Prop := pchars_ok (c_gl c) /\ env_ok (c_env c) /\ c_raw_ticks c = false.
 
 Lemma static_buf_notab c h : ctx_ok c -> sty_ok (p_alt h) -> notab (static_buf c h).
 Proof.
-  intros [Hp He] Ha. unfold static_buf. destruct (p_key h).
+  intros [Hp [He Hraw]] Ha. unfold static_buf. destruct (p_key h).
   - apply notab_nil.
   - apply notab_nil.
   - intros [H | []]. discriminate H.
   - intros [H | []]. discriminate H.
   - unfold format_bar. apply bar_text_notab; assumption.
-  - apply expand_no_tab.
+  - rewrite Hraw. apply expand_no_tab.
   - apply He.
   - apply key_text_notab.
 Qed.
@@ -585,7 +585,7 @@ Qed.
 
 Lemma wide_bar_line_notab c alt cur : ctx_ok c -> sty_ok alt -> notab cur -> notab (wide_bar_line c alt cur).
 Proof.
-  intros [Hp He] Ha Hc. unfold wide_bar_line, format_bar.
+  intros [Hp [He Hraw]] Ha Hc. unfold wide_bar_line, format_bar.
   apply replace_nul_notab; [exact Hc | apply bar_text_notab; assumption].
 Qed.
 
@@ -649,8 +649,8 @@ Qed.
 
 Lemma ref_lines_notab E r : env_ok E -> rok r -> Forall notab (ref_lines E r).
 Proof.
-  intros He [Hg [Ht _]]. unfold ref_lines.
-  assert (Hc : ctx_ok (ref_ctx E r)) by (split; [exact Hg | exact He]).
+  intros He [Hg [Ht _]]. unfold ref_lines, ref_lines_gen. fold (ref_ctx E r).
+  assert (Hc : ctx_ok (ref_ctx E r)) by (split; [exact Hg | split; [exact He | reflexivity]]).
   pose proof (ref_fmt_notab (ref_ctx E r) (expand (r_msg r) (r_tw r)) (expand (r_prefix r) (r_tw r)) Hc
                 (expand_no_tab _ _) (expand_no_tab _ _) (r_tpl r) [] [] WNone Ht notab_nil (Forall_nil _) I) as H.
   destruct (ref_fmt (ref_ctx E r) (expand (r_msg r) (r_tw r)) (expand (r_prefix r) (r_tw r)) (r_tpl r) [] [] WNone)
@@ -788,12 +788,20 @@ Proof.
   destruct (c =? TAB); [rewrite length_tab_spaces | cbn [length]]; lia.
 Qed.
 
-(** ** regression: the {spinner} arm before / after commit 6ff82af *)
-(* the tick string as stored - what the arm pushed into the line before 6ff82af - may hold a TAB *)
-Lemma tick_text_can_have_tab : exists g tick fin, ~ notab (tick_text g tick fin).
+(** ** regression: the frame with the {spinner} arm of before commit 6ff82af *)
+(* tick_strings(["\t","x"]), template "{spinner}": the state after installing that style *)
+Definition pre_6ff82af_ops : list op :=
+  [SetStyleNew [] (mkglyphs [[9]; [120]] [[35]; [45]] 1) [TPh (bare KSpinner)]].
+
+Lemma pre_6ff82af_frame E :
+  let r := fst (ref_run E rbar_init pre_6ff82af_ops) in
+  ~ Forall notab (ref_lines_gen true E r) /\ Forall notab (ref_lines_gen false E r).
 Proof.
-  exists (mkglyphs [[9]; [120]] [[35]; [45]] 1), 1, false. vm_compute. intros H. apply H. left. reflexivity.
+  cbn zeta. split.
+  - assert (H : ref_lines_gen true E (fst (ref_run E rbar_init pre_6ff82af_ops)) = [[9]])
+      by (vm_compute; reflexivity).
+    rewrite H. intros HF. inversion HF as [|? ? H1 _]; subst. apply H1. left. reflexivity.
+  - assert (H : ref_lines_gen false E (fst (ref_run E rbar_init pre_6ff82af_ops)) = [tab_spaces 8])
+      by (vm_compute; reflexivity).
+    rewrite H. constructor; [apply tab_spaces_notab | constructor].
 Qed.
-(* what the arm writes now *)
-Lemma spinner_buf_notab c h : p_key h = KSpinner -> notab (static_buf c h).
-Proof. intros Hk. unfold static_buf. rewrite Hk. apply expand_no_tab. Qed.
